@@ -94,6 +94,20 @@ def run(tier, seed):
                 for run_ in (["resetall"], ["nl", "resetall", "nl"]):
                     if ok(p, run_):
                         variants.append((p, run_))
+        # `resetall (between two descriptions, or leading the file: position -2) TOGETHER WITH a comment or neutral
+        # directive at a later position: the directive must not leave the parser in a state in which later trivia
+        # is read differently (round-2 seeded change: IN_DIRECTIVE entry left behind by the failed directive attempt)
+        multi = []
+        NB = [k for k in NEUTRAL if k not in BL]
+        # (a leading `resetall is not placed before a compilation-unit timeunits declaration: that declaration has a
+        # slot of its own in source_text only when it comes first, so the tree legitimately differs)
+        for p in sorted(tops) + ([-2] if tk[0] not in ("timeunit", "timeprecision") else []):
+            later = [q for q in range(n) if q > p]
+            rng.shuffle(later)
+            for j, q in enumerate(later[: (4 if quick else 12)]):
+                k = NB[(bi + j + (p if p >= 0 else 0)) % len(NB)]
+                if ok(q, [k]) and (p < 0 or ok(p, ["resetall"])):
+                    multi.append((p, ["resetall"], [(q, [k])]))
         for _ in range(10 if quick else 30):
             p = rng.randrange(n)
             run_ = [rng.choice(NEUTRAL) for _ in range(rng.randint(2, 5))]
@@ -105,15 +119,23 @@ def run(tier, seed):
                 variants.append((-1, run_))      # the same run at ALL positions
         calls = [{"fn": "two_step_sv_str", "path": "t.sv", "text": join(tk, [" "] * n)}]
         vm = []
-        for (p, run_) in variants:
+        for var in [(p, r_, []) for (p, r_) in variants] + multi:
+            p, run_, also = var
             txt = run_text(run_)
             seps = [" "] * n
+            lead = ""
             if p >= 0:
                 seps[p] = txt
+            elif p == -2:
+                lead = txt
             else:
                 seps = [txt] * n
-            calls.append({"fn": "two_step_sv_str", "path": "t.sv", "text": join(tk, seps)})
-            vm.append({"pos": p, "run": run_, "text": txt, "top": (p in tops), "prev": prev_kind(p) if p >= 0 else ""})
+            am = []
+            for (q, r2) in also:
+                seps[q] = run_text(r2)
+                am.append({"pos": q, "run": r2, "text": run_text(r2), "top": (q in tops), "prev": prev_kind(q)})
+            calls.append({"fn": "two_step_sv_str", "path": "t.sv", "text": lead + join(tk, seps)})
+            vm.append({"pos": p, "run": run_, "text": txt, "top": (p in tops) or p == -2, "prev": prev_kind(p) if p >= 0 else "", "also": am})
         hcases.append({"id": bi, "calls": calls, "fresh_each": True})
         meta.append(vm)
     vlib.log("C12: %d base sources, %d parses" % (len(bases), sum(len(h["calls"]) for h in hcases)))
